@@ -117,8 +117,18 @@ def impl(py):
     roots2 = {id(nd): i for i, nd in enumerate(nodes2)}
     fopt = {"algorithm": py["alg"], "minPos": mn, "maxPos": mx, "density": py["density"],
             "nodeSpacing": py["spacing"], "stubWidth": py["stub"]}
-    f = Force(fopt)
-    f.nodes(list(nodes2))
+    prev = py.get("prev")
+    if prev:
+        # the engine was configured differently and used before: the layering it
+        # reports must be that of its CURRENT options (no stale distributor state)
+        f = Force({"algorithm": prev["alg"], "minPos": prev["min"], "maxPos": prev["max"],
+                   "density": prev["density"], "nodeSpacing": prev["spacing"], "stubWidth": prev["stub"]})
+        f.nodes(list(nodes2))
+        f.compute()
+        f.set_options(fopt)
+    else:
+        f = Force(fopt)
+        f.nodes(list(nodes2))
     f.compute()
     got = f.getLayers()
     out["force"] = None if got is None else _dump_layers(got, roots2)
@@ -146,6 +156,19 @@ def _model_calls(py):
     return [[340, a] + _oq(lw) + tail,
             [341, a] + _oq(mn) + _oq(mx) + tail,
             [342, a] + _oq(lw) + tail]
+
+
+def _maybe_prev(rng, py):
+    """30 % of the cases: the engine ran under another configuration first"""
+    if rng.random() < 0.3:
+        span = max([p for p, _ in py["labels"]] + [100])
+        py = dict(py)
+        py["prev"] = {"alg": rng.choice(["overlap", "simple", "none"]),
+                      "min": rng.choice([0, 0, None, -16]),
+                      "max": rng.choice([span / 4, span / 2, span, None, 64]),
+                      "density": rng.choice([0.25, 0.5, 0.75, 1]),
+                      "spacing": rng.choice([0, 3, 8]), "stub": rng.choice([0, 1, 4])}
+    return py
 
 
 def _case(kind, py):
@@ -245,7 +268,7 @@ def gen(rng, tier):
                          float(int(need * rng.choice([1, 2])) + 1)])
         o = _with_lw(rng, o, lw)
         o["labels"] = labs
-        yield _case("random", o)
+        yield _case("random", _maybe_prev(rng, o))
 
     # labels wider than a layer (some or all of them)
     for _ in range(250 * reps):
@@ -258,7 +281,7 @@ def gen(rng, tier):
                 l[1] = lw * rng.choice([1, 1.5, 2, 8]) + rng.choice([0, 0.5, 7])
         o = _with_lw(rng, o, lw)
         o["labels"] = labs
-        yield _case("wider_than_layer", o)
+        yield _case("wider_than_layer", _maybe_prev(rng, o))
 
     # identical positions (ties in the position sort), equal or different widths
     for _ in range(250 * reps):
@@ -273,7 +296,7 @@ def gen(rng, tier):
         lw = rng.choice([None, float(int(need / rng.choice([1, 2, 3, 4])) + 1), 100.0, 20.0])
         o = _with_lw(rng, o, lw)
         o["labels"] = labs
-        yield _case("identical_positions", o)
+        yield _case("identical_positions", _maybe_prev(rng, o))
 
     # equal-width grids: ties in the overlap counts, the stable re-sort decides
     for _ in range(250 * reps):
@@ -288,7 +311,7 @@ def gen(rng, tier):
         lw = float(int(need / rng.choice([2, 3, 4, 6])) + 1)
         o = _with_lw(rng, o, lw)
         o["labels"] = labs
-        yield _case("grid", o)
+        yield _case("grid", _maybe_prev(rng, o))
 
     # dense clusters with a few outliers
     for _ in range(250 * reps):
@@ -303,7 +326,7 @@ def gen(rng, tier):
         lw = float(int(need / rng.choice([1.5, 2, 3, 5])) + 1)
         o = _with_lw(rng, o, lw)
         o["labels"] = labs
-        yield _case("clusters", o)
+        yield _case("clusters", _maybe_prev(rng, o))
 
     # sets that just fit / just do not fit the budget (density 1/2, exact boundary)
     for _ in range(150 * reps):
